@@ -52,13 +52,14 @@ pub fn evt(e: &Evt) -> String {
 
 pub fn env_view(v: &EnvironmentView) -> String {
     format!(
-        "ENV router{:?} awaits{:?} own{:?} np{} nr{} req{:?}",
+        "ENV router{:?} awaits{:?} own{:?} term{:?} np{} nr{} req{:?}",
         v.process_router,
         v.pending_awaits
             .iter()
             .map(|p| format!("{}:{:?}:{:?}", p.awaiter, p.expected_workers, p.responses))
             .collect::<Vec<_>>(),
         v.resource_ownership,
+        v.terminated,
         v.next_process_id,
         v.next_request_id,
         v.pending_requests
